@@ -378,6 +378,7 @@ func c09(r *ev.Result, tier string) {
 	c09StalledDownload(r, root)
 	c09NoticeBurst(r, root)
 	c09EndpointDirs(r, root)
+	c09RealEmptyFlag(r, root)
 	r.Set("responses_by_config_and_status", statuses)
 	r.Set("targets", len(targets))
 	r.Sample(5, c09Case{Config: "dir:nested", Target: "//sub/%2e%2e/..%2f/OUTSIDE-canary.txt"})
@@ -822,4 +823,42 @@ func c09EndpointDirs(r *ev.Result, root string) {
 	r.Add(n)
 	r.AddDistinct(n)
 	r.Set("paths_below_endpoint_names", n)
+}
+
+// c09RealEmptyFlag: the real program with -serve-files-from given but empty
+// (a wrapper script's variable that is not set), started in a directory with
+// files in it: no files are served.
+func c09RealEmptyFlag(r *ev.Result, base string) {
+	dir, _ := os.MkdirTemp(base, "emptyflag-")
+	defer os.RemoveAll(dir)
+	os.WriteFile(filepath.Join(dir, "canary.txt"), []byte("CANARY:cwd\n"), 0o644)
+	os.MkdirAll(filepath.Join(dir, "pub"), 0o755)
+	os.WriteFile(filepath.Join(dir, "pub", "tool.sh"), []byte("CANARY:cwd-pub\n"), 0o644)
+	n := 0
+	for _, args := range [][]string{{"-serve-files-from", ""}, {"-serve-files-from="}} {
+		p, addr, err := startReal(dir, append([]string{"-listen-address", "127.0.0.1:0", "-tls-certificate-cache", filepath.Join(dir, "c.txtar")}, args...)...)
+		if nil != err {
+			r.Inc("empty_flag_runs_refused_at_start", 1)
+			continue
+		}
+		for _, t := range []string{"/canary.txt", "/", "/pub/tool.sh", "/c.txtar"} {
+			c, err := hworld.DialAddr(addr, "")
+			if nil != err {
+				break
+			}
+			res, err := c.Do(hworld.Get(t, addr, "Connection: close"))
+			c.Close()
+			n++
+			if nil == err && (404 != res.Status || bytes.Contains(res.Body, []byte("CANARY"))) {
+				r.Violate(ev.Violation{Signature: "binary/empty-flag-serves-the-working-directory", Kind: "c09", Replay: c09Case{Config: "unset", Target: t},
+					What: fmt.Sprintf("real binary started with %q in a directory that holds files: GET %s is answered %d %q (no files are to be served)", args, t, res.Status, trunc80(string(res.Body)))})
+				break
+			}
+		}
+		stopReal(p)
+		p.Close()
+	}
+	r.Add(n)
+	r.AddDistinct(n)
+	r.Set("requests_with_an_empty_serve_files_from", n)
 }
